@@ -114,11 +114,13 @@ def withExtension (p e : Bytes) : Bytes :=
 
 def dotHtml : Bytes := [46, 104, 116, 109, 108]                      -- ".html"
 
-/-- html.rs 204-212 -/
+def bHtmlExt : Bytes := [104, 116, 109, 108]                          -- "html"
+
+/-- html.rs 204-212 (since fix b1b2416 a name without extension gets `html`, not `.html`) -/
 def addHtmlExt (p : Bytes) : Bytes :=
   match extension p with
   | some x => withExtension p (x ++ dotHtml)
-  | none => withExtension p dotHtml
+  | none => withExtension p bHtmlExt
 
 /-- a file name `..x` (x non-empty, without '.'): stem ".", so the copy made by `with_extension`
 ends in `..` and keeps no file name -/
@@ -174,7 +176,8 @@ def gcovOutPath (wd : Path) (gcnoPath ext : Bytes) : Option Path :=
 /-- lib.rs 171-179, 263-281: a `WalkDir` entry below the working dir (`names` come from readdir) -/
 def walkEntry (wd : Path) (names : List Bytes) : Path := wd ++ names.map .normal
 
-/-- llvm_tools.rs 124: `working_dir.join("grcov.profdata")`, the `-o` of `llvm-profdata merge` -/
+/-- llvm_tools.rs 123-132: `working_dir.join("grcov.profdata")`, the `-o` of `llvm-profdata merge`,
+removed again (`RemoveOnDrop`, fix 2cb069b) on every way out of `llvm_profiles_to_lcov` -/
 def profdataPath (wd : Path) : Path := join wd [.normal bGrcovProfdata]
 
 /-- producer.rs 345/358/369/432: `tmp_dir.join(format!("{}_{}.{}", stem, n, ext))` — the entry's
@@ -287,7 +290,9 @@ def dests (ri : RunInput) : List Dest :=
     ++ ri.extracts.flatMap (extractDests ri.tmp)
     ++ ri.gcovJobs.flatMap (gcovDests ri.tmp)
     ++ ri.walked.map (fun w => ⟨.removeFile, .tmp, walkEntry (workerDir ri.tmp w.1) w.2⟩)
-    ++ ri.profileJobs.map (fun i => ⟨.toolWrite, .tmp, profdataPath (workerDir ri.tmp i)⟩)
+    ++ ri.profileJobs.flatMap (fun i =>
+        [⟨.toolWrite, .tmp, profdataPath (workerDir ri.tmp i)⟩,
+         ⟨.removeFile, .tmp, profdataPath (workerDir ri.tmp i)⟩])
     ++ outDests ri
 
 def rootPath (ri : RunInput) : Root → Path
